@@ -18,6 +18,8 @@ import (
 	"errors"
 	"fmt"
 	"net/url"
+	"strconv"
+	"strings"
 )
 
 import (
@@ -96,11 +98,36 @@ func checkSupportCompress(acceptEncoding string) bool {
 }
 
 func checkSupportGzipCompress(acceptEncoding string) bool {
-	return bfe_http.HasToken(acceptEncoding, EncodeGzip)
+	return acceptsEncoding(acceptEncoding, EncodeGzip)
 }
 
 func checkSupportBrotliCompress(acceptEncoding string) bool {
-	return bfe_http.HasToken(acceptEncoding, EncodeBrotli)
+	return acceptsEncoding(acceptEncoding, EncodeBrotli)
+}
+
+// acceptsEncoding reports whether the Accept-Encoding value lists encoding
+// with a non-zero weight ("gzip", "gzip;q=0.5", "gzip ; q=1" but not "gzip;q=0").
+func acceptsEncoding(acceptEncoding string, encoding string) bool {
+	for _, item := range strings.Split(acceptEncoding, ",") {
+		params := strings.Split(item, ";")
+		if !strings.EqualFold(strings.TrimSpace(params[0]), encoding) {
+			continue
+		}
+
+		for _, param := range params[1:] {
+			param = strings.TrimSpace(param)
+			if len(param) < 2 || (param[0] != 'q' && param[0] != 'Q') || param[1] != '=' {
+				continue
+			}
+			weight, err := strconv.ParseFloat(param[2:], 64)
+			if err != nil || weight <= 0 {
+				return false
+			}
+		}
+		return true
+	}
+
+	return false
 }
 
 func (m *ModuleCompress) getCompressRule(req *bfe_basic.Request) (*compressRule, error) {
@@ -140,6 +167,12 @@ func (m *ModuleCompress) compressHandler(req *bfe_basic.Request, res *bfe_http.R
 
 	contentEncoding := res.Header.GetDirect("Content-Encoding")
 	if len(contentEncoding) != 0 && contentEncoding != EncodeIdentity {
+		return bfe_module.BfeHandlerGoOn
+	}
+
+	// a response that can not carry a body must not be given an encoded one
+	if res.StatusCode < 200 || res.StatusCode == bfe_http.StatusNoContent ||
+		res.StatusCode == bfe_http.StatusNotModified {
 		return bfe_module.BfeHandlerGoOn
 	}
 
